@@ -71,7 +71,7 @@ def monitored(f):
     from ..run import Hang
     install_monitor()
     _MON.update(active=True, seen={}, iters=0)
-    remaining = signal.setitimer(signal.ITIMER_REAL, CALL_BUDGET_S)[0]
+    remaining = signal.setitimer(signal.ITIMER_REAL, CALL_BUDGET_S, 2.0)[0]
     try:
         return ("ok", f())
     except NonTermination as err:
@@ -82,7 +82,7 @@ def monitored(f):
         return ("exc", f"{type(err).__name__}: {err}")
     finally:
         _MON["active"] = False
-        signal.setitimer(signal.ITIMER_REAL, max(1.0, remaining - CALL_BUDGET_S) if remaining else 0)
+        signal.setitimer(signal.ITIMER_REAL, max(1.0, remaining - CALL_BUDGET_S) if remaining else 0, 2.0)
 
 
 # ---- universes ------------------------------------------------------------------------------
